@@ -13,21 +13,7 @@ D = 'src/de.rs'
 MA = 'impl de::Deserializer for YamlDeserializer/fn deserialize_map/'
 P34 = ['C03', 'C04', 'C01']
 
-EVENTS_TRAIT = dict(src=D, path='trait Events',
-    trait_extra='''
-    /// ghost: the events this source will still deliver (if no error intervenes)
-    spec fn rest(&self) -> Seq<Ev<'de>>;
-''',
-    trait_methods={
-        'next': dict(ensures=[('cursor', '''match r {
-                Ok(Some(e)) => old(self).rest().len() > 0 && e == old(self).rest()[0] && final(self).rest() == old(self).rest().skip(1),
-                Ok(None) => old(self).rest().len() == 0 && final(self).rest() == old(self).rest(),
-                Err(_) => true }''')]),
-        'peek': dict(ensures=[('cursor', '''final(self).rest() == old(self).rest() && match r {
-                Ok(Some(e)) => old(self).rest().len() > 0 && *e == old(self).rest()[0],
-                Ok(None) => old(self).rest().len() == 0,
-                Err(_) => true }''')]),
-    })
+EVENTS_TRAIT = events_trait()
 
 ITEMS = location_types() + budget_types() + error_types() + [
     dict(src=SAPHYR + 'scanner.rs', path='enum ScalarStyle', derive=COPY),
